@@ -25,7 +25,7 @@ RULE = (
 ASSUMPTIONS = ["simulated schedulers (simbin) stand in for Slurm/SGE/LSF", "spec hashing off (covered by C18)"]
 
 
-QUICK_BUDGET = {"cases": 1260, "deadline_s": 170, "case_timeout_s": 90, "floors": {"runs": 633, "submissions": 1200, "prereq_sets": 1200}}
+QUICK_BUDGET = {"cases": 1260, "deadline_s": 170, "case_timeout_s": 90, "floors": {"runs": 633, "submissions": 1200, "prereq_sets": 1200, "user_cancels": 120}}
 THOROUGH_FACTOR = 15  # thorough = the same workload with 15x the cases (floors scale along)
 
 
@@ -216,7 +216,7 @@ def run_case(case):
                 adv = random.Random(rnd["adv_seed"])
                 for _ in range(rnd["adv_steps"]):
                     run_, act, pend = sorted(sim.runnable()), sorted(sim.running()), sorted(sim.pending())
-                    choices = [("start", i) for i in run_] * 3 + [("ok", i) for i in act] * 3 + [("fail", i) for i in act] + [("cancel", i) for i in (pend + act)[:1]]
+                    choices = [("start", i) for i in run_] * 3 + [("ok", i) for i in act] * 3 + [("fail", i) for i in act] + [("cancel", i) for i in (pend + act)[:1]] + [("usercancel", i) for i in (act + pend)[:1]]
                     if not choices:
                         break
                     kind, jid = adv.choice(choices)
@@ -229,6 +229,16 @@ def run_case(case):
                         sim.finish(jid, 0)
                     elif kind == "fail":
                         sim.finish(jid, adv.choice([1, 2, 137]))
+                    elif kind == "usercancel":
+                        # the user cancels the target through gwf itself; a running job may already have written
+                        # (fresh-looking) output.  Its last job is then a cancelled one: the next run re-submits it.
+                        job = sim.jobs()[jid]
+                        if job["phase"] == "running" and adv.random() < 0.6:
+                            scenario.create_outputs(by[job["name"]])
+                        rc_ = cli.gwf(proj.root, ["cancel", job["name"]], env)
+                        res.mon("user_cancels")
+                        if rc_.crashed or rc_.rc != 0:
+                            res.violation("crash", "gwf cancel %s failed" % job["name"], **cli.crash_witness(rc_))
                     else:
                         sim.cancel(jid)
             res.sig = (gen.shape_class(deps), sigs, sched)
